@@ -9,10 +9,11 @@ import (
 	"github.com/spf13/afero"
 )
 
-// PosixMem is afero.MemMapFs with the three POSIX rules that MemMapFs lacks and that lock protocols
+// PosixMem is afero.MemMapFs with the four POSIX rules that MemMapFs lacks and that lock protocols
 // built on directories depend on: removing a non-empty directory fails with ENOTEMPTY, and creating
 // an entry below a missing parent fails with ENOENT, and creating or removing an entry updates the
-// modification time of its parent directory. Everything else is MemMapFs. It is used as the
+// modification time of its parent directory, and a directory cannot be opened for writing (EISDIR).
+// Everything else is MemMapFs. It is used as the
 // in-memory stand-in of the OS backend ("several processes on one POSIX filesystem") so that
 // exhaustive exploration does not pay for system calls; the raw MemMapFs and the real OS backend
 // are explored as well, as separate scenarios.
@@ -82,7 +83,16 @@ func (p *PosixMem) Mkdir(name string, perm os.FileMode) error {
 	return err
 }
 
+func (p *PosixMem) isDir(name string) bool {
+	fi, err := p.MemMapFs.Stat(name)
+	return err == nil && fi.IsDir()
+}
+
 func (p *PosixMem) OpenFile(name string, flag int, perm os.FileMode) (afero.File, error) {
+	if flag&(os.O_WRONLY|os.O_RDWR|os.O_TRUNC|os.O_APPEND) != 0 && p.isDir(name) {
+		// POSIX: a directory cannot be opened for writing (MemMapFs would let the caller overwrite the directory entry)
+		return nil, &os.PathError{Op: "open", Path: name, Err: syscall.EISDIR}
+	}
 	if flag&os.O_CREATE != 0 {
 		if err := p.parentOK(name); err != nil {
 			return nil, err
@@ -97,6 +107,9 @@ func (p *PosixMem) OpenFile(name string, flag int, perm os.FileMode) (afero.File
 }
 
 func (p *PosixMem) Create(name string) (afero.File, error) {
+	if p.isDir(name) {
+		return nil, &os.PathError{Op: "open", Path: name, Err: syscall.EISDIR}
+	}
 	if err := p.parentOK(name); err != nil {
 		return nil, err
 	}
